@@ -76,3 +76,16 @@ CASES += [
         ("quantarhei/builders/aggregate_states.py", "        n = 0\n        for mn in aggregate.monomers:\n            for a in range(mn.nmod):\n                vb_ls.append(mn.get_Mode(a).get_SubMode(elst[n]))\n            n += 1\n",
          "        for n, mn in enumerate(aggregate.monomers):\n            for a in range(mn.nmod):\n                vb_ls.append(mn.get_Mode(a).get_SubMode(elst[n]))\n", 1)]},
 ]
+
+HO = "quantarhei/qm/oscillators/ho.py"
+_ADD = "        self._shifts.append(shift)\n        self._fcs.append(fcmatrix)\n"
+CASES += [
+    {"name": "bounded table evicts the oldest shift and the newest matrix (seeded change of round 6)", "kind": "mutant", "rule": "C10-I", "edits": [
+        (HO, _ADD, "        if len(self._shifts) >= 16:\n            self._shifts.pop(0)\n            self._fcs.pop()\n" + _ADD, 1)]},
+    {"name": "new shifts go to the front, matrices to the end", "kind": "mutant", "rule": "C10-I", "edits": [
+        (HO, _ADD, "        self._shifts.insert(0, shift)\n        self._fcs.append(fcmatrix)\n", 1)]},
+    {"name": "shifts kept sorted", "kind": "mutant", "rule": "C10-I", "edits": [
+        (HO, _ADD, _ADD + "        self._shifts.sort()\n", 1)]},
+    {"name": "bounded table evicts the oldest record of both lists", "kind": "twin", "edits": [
+        (HO, _ADD, "        if len(self._shifts) >= 1000000:\n            self._shifts.pop(0)\n            self._fcs.pop(0)\n" + _ADD, 1)]},
+]
